@@ -40,10 +40,19 @@ def _model(chk: Check) -> bool:
     if not res.ok:
         chk.model_violation("TLSTruncation", res)
         return False
+    with tempfile.TemporaryDirectory(prefix="vf_c09b_") as d:
+        mod = tlc.write_mc_module(d, "MC_TLSClose", "TLSClose", {"MCParams": '{[standard |-> s, variant |-> v] : s \\in BOOLEAN, v \\in {"first", "reader", "peer_first", "unread", "silent"}}'})
+        cfg = os.path.join(d, "mc.cfg")
+        tlc.write_cfg(cfg, constants={"Params": "<- MCParams"}, invariants=["CloseSendsNotify", "NothingBeforeClose"], check_deadlock=False)
+        res = tlc.run_tlc(mod, cfg)
+    chk.add_model("TLSClose", res, {"situations": 5, "standard": "both"}, "what the peer may observe after the library side closed")
+    if not res.ok:
+        chk.model_violation("TLSClose", res)
+        return False
     return True
 
 
-async def _async_session(lib_is_server: bool, standard: bool, cut: int | None) -> dict[str, Any]:
+async def _async_session(lib_is_server: bool, standard: bool, cut: int | None, into: bool = False) -> dict[str, Any]:
     from easynetwork.lowlevel.api_async.backend._asyncio.backend import AsyncIOBackend
     from easynetwork.lowlevel.api_async.transports.tls import AsyncTLSStreamTransport
 
@@ -78,7 +87,11 @@ async def _async_session(lib_is_server: bool, standard: bool, cut: int | None) -
         got = 0
         for _ in range(10000):
             try:
-                data = await tls.recv(65536)
+                if into:
+                    buf = bytearray(65536)
+                    data = bytes(buf[: await tls.recv_into(buf)])
+                else:
+                    data = await tls.recv(65536)
             except (ssl.SSLError, OSError):
                 events.append({"ev": "error"})
                 break
@@ -107,7 +120,7 @@ def _reference_total(lib_is_server: bool) -> int:
     return int(r1["total_towards_lib"])
 
 
-def _blocking_session(lib_is_server: bool, standard: bool, cut: int | None) -> dict[str, Any]:
+def _blocking_session(lib_is_server: bool, standard: bool, cut: int | None, into: bool = False) -> dict[str, Any]:
     """SSLStreamTransport <-> proxy <-> stdlib peer; the proxy forwards only the first `cut` bytes towards the library."""
     from easynetwork.lowlevel.api_sync.transports.socket import SSLStreamTransport
 
@@ -192,7 +205,11 @@ def _blocking_session(lib_is_server: bool, standard: bool, cut: int | None) -> d
         got = 0
         for _ in range(10000):
             try:
-                data = tr.recv(65536, 10)
+                if into:
+                    buf = bytearray(65536)
+                    data = bytes(buf[: tr.recv_into(buf, 10)])
+                else:
+                    data = tr.recv(65536, 10)
             except (ssl.SSLError, OSError):
                 events.append({"ev": "error"})
                 break
@@ -217,6 +234,158 @@ def _blocking_session(lib_is_server: bool, standard: bool, cut: int | None) -> d
     for t in threads:
         t.join(5)
     return {"events": events, "total_towards_lib": forwarded["towards_lib"]}
+
+
+CLOSE_VARIANTS = ("first", "reader", "peer_first", "unread", "silent")
+
+
+async def _close_session(lib_is_server: bool, standard: bool, variant: str, into: bool) -> list[dict[str, Any]]:
+    """The library side closes in the given situation (see TLSClose.tla); what does the peer observe on its reading side?"""
+    from easynetwork.lowlevel.api_async.backend._asyncio.backend import AsyncIOBackend
+    from easynetwork.lowlevel.api_async.transports.tls import AsyncTLSStreamTransport
+
+    backend = AsyncIOBackend()
+    lib2peer, peer2lib = memtransport.MemPipe(), memtransport.MemPipe()
+    inner = memtransport.MemStreamTransport(backend, peer2lib, lib2peer)
+    peer = tlspeer.Peer(lib2peer, peer2lib, server_side=not lib_is_server)
+    hs = asyncio.ensure_future(peer.handshake())
+    kw: dict[str, Any] = {"standard_compatible": standard, "shutdown_timeout": 2, "handshake_timeout": 30}
+    if lib_is_server:
+        tls = await AsyncTLSStreamTransport.wrap(inner, tlspeer.server_context(), server_side=True, **kw)
+    else:
+        tls = await AsyncTLSStreamTransport.wrap(inner, tlspeer.client_context(), server_hostname="localhost", **kw)
+    await hs
+    events: list[dict[str, Any]] = []
+
+    async def lib_read() -> bytes:
+        if into:
+            buf = bytearray(4096)
+            return bytes(buf[: await tls.recv_into(buf)])
+        return await tls.recv(4096)
+
+    # some traffic first, so that both directions are past the handshake (session tickets consumed)
+    await peer.write(b"hello")
+    assert await lib_read() == b"hello"
+    await tls.send_all(b"world")
+    assert await peer.read() == b"world"
+    reader = None
+    if variant == "reader":
+        reader = asyncio.ensure_future(lib_read())
+        for _ in range(5):
+            await asyncio.sleep(0)
+    elif variant == "unread":
+        # two records arrive in one piece; the library side reads the first one only: the second sits decrypted-to-be in its TLS layer
+        await peer.write(b"first record")
+        await peer.write(b"never read by the library side")
+        if await lib_read() != b"first record":
+            events.append({"ev": "crash:unexpected_data"})
+
+    async def peer_observer() -> str:
+        try:
+            if variant == "peer_first":
+                # the peer closes first: its unwrap() completes only when the library's close notification arrives
+                await peer.unwrap()
+                return "peer_clean"
+            while True:
+                data = await peer.read()
+                if not data:
+                    if variant != "silent":
+                        await peer.close_notify()
+                    return "peer_clean"
+        except (ssl.SSLError, OSError):
+            return "peer_truncated"
+
+    obs = asyncio.ensure_future(peer_observer())
+    if variant == "peer_first":
+        try:
+            if await lib_read() != b"":
+                events.append({"ev": "crash:data_after_close_notify"})
+        except (ssl.SSLError, OSError):
+            events.append({"ev": "crash:error_instead_of_eof"})
+    events.append({"ev": "lib_close"})
+    closer = asyncio.ensure_future(tls.aclose())
+    done, _ = await asyncio.wait([obs], timeout=30)
+    events.append({"ev": obs.result() if done and obs.exception() is None else "peer_nothing"})
+    await asyncio.wait([closer], timeout=30)
+    if not closer.done():
+        events.append({"ev": "crash:close_hangs"})
+        closer.cancel()
+    if reader is not None:
+        reader.cancel()
+        await asyncio.gather(reader, return_exceptions=True)
+    obs.cancel()
+    events.append({"ev": "end"})
+    return events
+
+
+def _blocking_close_session(lib_is_server: bool, standard: bool, variant: str) -> list[dict[str, Any]]:
+    """Blocking SSLStreamTransport.close() in the situations that exist without concurrency: first / peer_first / unread."""
+    from easynetwork.lowlevel.api_sync.transports.socket import SSLStreamTransport
+
+    lib_sock, peer_sock = socket.socketpair()
+    events: list[dict[str, Any]] = []
+    result: dict[str, str] = {}
+    go = threading.Event()
+
+    def peer_thread() -> None:
+        try:
+            ctx = tlspeer.client_context() if lib_is_server else tlspeer.server_context()
+            peer_sock.settimeout(10)
+            s = ctx.wrap_socket(peer_sock, server_side=not lib_is_server, server_hostname="localhost" if lib_is_server else None, suppress_ragged_eofs=False, do_handshake_on_connect=True)
+            s.sendall(b"hello")
+            assert s.recv(100) == b"world"
+            if variant == "unread":
+                s.sendall(b"never read by the library side")
+            go.set()
+            try:
+                if variant == "peer_first":
+                    # the peer closes first: unwrap() sends its close notification and returns when the library's one arrives
+                    s.unwrap()
+                    result["saw"] = "peer_clean"
+                while "saw" not in result:
+                    data = s.recv(4096)
+                    if not data:
+                        result["saw"] = "peer_clean"
+                        break
+            except ssl.SSLError:
+                result["saw"] = "peer_truncated"
+            except OSError:
+                result["saw"] = "peer_truncated"
+        except Exception as exc:  # noqa: BLE001
+            result.setdefault("saw", "crash:peer:" + type(exc).__name__)
+            go.set()
+
+    th = threading.Thread(target=peer_thread, daemon=True)
+    th.start()
+    tr = None
+    try:
+        kw: dict[str, Any] = {"retry_interval": 0.5, "handshake_timeout": 10, "shutdown_timeout": 1.0, "standard_compatible": standard}
+        if lib_is_server:
+            tr = SSLStreamTransport(lib_sock, tlspeer.server_context(), server_side=True, **kw)
+        else:
+            tr = SSLStreamTransport(lib_sock, tlspeer.client_context(), server_hostname="localhost", **kw)
+        assert tr.recv(100, 10) == b"hello"
+        tr.send_all(b"world", 10)
+        go.wait(10)
+        if variant == "peer_first":
+            try:
+                if tr.recv(100, 10) != b"":
+                    events.append({"ev": "crash:data_after_close_notify"})
+            except (ssl.SSLError, OSError):
+                events.append({"ev": "crash:error_instead_of_eof"})
+        events.append({"ev": "lib_close"})
+        tr.close()
+    except Exception as exc:  # noqa: BLE001
+        events.append({"ev": "crash:" + type(exc).__name__})
+    th.join(15)
+    events.append({"ev": result.get("saw", "peer_nothing")})
+    events.append({"ev": "end"})
+    for s_ in (lib_sock, peer_sock):
+        try:
+            s_.close()
+        except OSError:
+            pass
+    return events
 
 
 async def _close_sends_notify(lib_is_server: bool) -> bool:
@@ -265,27 +434,29 @@ def run(chk: Check) -> None:
         info["server" if lib_is_server else "client"] = {"stream_length": L, "record_boundaries": ref, "cuts_async": len(cuts)}
         for standard in (True, False):
             for k in sorted(cuts):
-                r = vloop.run(lambda: _async_session(lib_is_server, standard, k))
-                rec.append(
-                    {
-                        "par": {"total": L, "cut": k, "plain": len(PLAIN), "standard": standard},
-                        "events": traces.uniform(r["events"], EVD),
-                        "meta": f"async role={'server' if lib_is_server else 'client'} standard={standard} cut={k}/{L}",
-                    }
-                )
+                for into in (False, True):
+                    r = vloop.run(lambda: _async_session(lib_is_server, standard, k, into))
+                    rec.append(
+                        {
+                            "par": {"total": L, "cut": k, "plain": len(PLAIN), "standard": standard},
+                            "events": traces.uniform(r["events"], EVD),
+                            "meta": f"async role={'server' if lib_is_server else 'client'} standard={standard} {'recv_into' if into else 'recv'} cut={k}/{L}",
+                        }
+                    )
         # blocking transport: reference length measured through the proxy
         rb = _blocking_session(lib_is_server, True, None)
         Lb = rb["total_towards_lib"]
         bcuts = sorted(set(range(0, Lb + 1, 97 if quick else 11)) | {Lb, Lb - 1, Lb - 7})
         info["server" if lib_is_server else "client"]["cuts_blocking"] = len(bcuts)
         for standard in (True, False):
-            for k in bcuts:
-                r = _blocking_session(lib_is_server, standard, k)
+            for i, k in enumerate(bcuts):
+                into = bool(i % 2)
+                r = _blocking_session(lib_is_server, standard, k, into)
                 rec.append(
                     {
                         "par": {"total": Lb, "cut": k, "plain": len(PLAIN), "standard": standard},
                         "events": traces.uniform(r["events"], EVD),
-                        "meta": f"blocking role={'server' if lib_is_server else 'client'} standard={standard} cut={k}/{Lb}",
+                        "meta": f"blocking role={'server' if lib_is_server else 'client'} standard={standard} {'recv_into' if into else 'recv'} cut={k}/{Lb}",
                     }
                 )
         ok = vloop.run(lambda: _close_sends_notify(lib_is_server))
@@ -296,6 +467,33 @@ def run(chk: Check) -> None:
                 "closing the TLS transport did not send a close notification (the peer saw a truncated stream)",
                 {"kind": "close_notify", "lib_is_server": lib_is_server},
             )
+    # the writer's half: what the peer observes when the library side closes (TLSClose.tla)
+    crec: list[dict[str, Any]] = []
+    for lib_is_server in (False, True):
+        for standard in (True, False):
+            for variant in CLOSE_VARIANTS:
+                for into in (False, True):
+                    try:
+                        evs = vloop.run(lambda: _close_session(lib_is_server, standard, variant, into), spin_limit=20000)
+                    except vloop.VirtualDeadlock:
+                        evs = [{"ev": "lib_close"}, {"ev": "peer_nothing"}]
+                    crec.append({"par": {"standard": standard, "variant": variant}, "events": traces.uniform(evs, EVD), "meta": f"async close role={'server' if lib_is_server else 'client'} standard={standard} situation={variant} reads={'recv_into' if into else 'recv'}"})
+            for variant in ("first", "peer_first", "unread"):
+                evs = _blocking_close_session(lib_is_server, standard, variant)
+                crec.append({"par": {"standard": standard, "variant": variant}, "events": traces.uniform(evs, EVD), "meta": f"blocking close role={'server' if lib_is_server else 'client'} standard={standard} situation={variant}"})
+    cres = traces.validate("TLSCloseTrace", [{"par": t["par"], "events": t["events"]} for t in crec], cfg_text=TRACE_CFG, parallel=2, chunk=1500)
+    chk.traces += len(crec)
+    for t in crec:
+        chk.distinct.add(t["meta"])
+    chk.extra["close_protocol"] = {"sessions": len(crec), "rejected": len(cres.rejected), "peer_observations": {k: sum(1 for t in crec for e in t["events"] if e["ev"] == k) for k in ("peer_clean", "peer_truncated", "peer_nothing")}}
+    for idx, pos in sorted(cres.rejected.items()):
+        t = crec[idx]
+        failing = t["events"][pos - 1] if 0 < pos <= len(t["events"]) else None
+        chk.violation(
+            {"kind": "trace", "spec": "TLSClose", "transport": t["meta"].split()[0], "variant": t["par"]["variant"], "event": (failing or {}).get("ev", "?")},
+            f"TLS close: not an allowed observation (event #{pos}: {failing}) -- {t['meta']} events={[e['ev'] for e in t['events']]}",
+            {"kind": "close_session", "meta": t["meta"], "events": t["events"]},
+        )
     slim = [{"par": t["par"], "events": t["events"]} for t in rec]
     res = traces.validate("TLSTruncationTrace", slim, cfg_text=TRACE_CFG, parallel=8, chunk=1500)
     chk.traces += len(rec)
